@@ -119,6 +119,22 @@ func checkC19Steps(c c19Case) error {
 	}
 	for i, st := range c.Steps {
 		switch st.Op {
+		case "probe":
+			// every other decoding entry point of the package is handed a few stray bytes (what a server sees
+			// all day); nothing of it may show in what the decoders do afterwards (destination unchanged here,
+			// canaries after the case)
+			before := bridge.Dump(dest)
+			junk := append([]byte{}, st.Wire...)
+			cose.VerifyHashEnvelope(&bridge.SpyVerifier{Alg: cose.AlgorithmEdDSA}, junk)
+			for _, k := range allKinds {
+				decodeAny(k, junk)
+			}
+			var key cose.Key
+			key.UnmarshalCBOR(junk)
+			if after := bridge.Dump(dest); after != before {
+				return finding("unrelated-decode-wrote", "step %d: decoding stray bytes %x elsewhere changed the destination", i, junk)
+			}
+			stats.Class("stray-bytes-offered-to-every-entry-point")
 		case "decode":
 			before := bridge.Dump(dest)
 			buf := append([]byte{}, st.Wire...)
@@ -240,7 +256,14 @@ func genC19Case(t *rapid.T) c19Case {
 	// every history starts with a successful decode so that there is state to damage
 	c.Steps = append(c.Steps, c19Step{Op: "decode", Wire: seedFor(t, c.Kind)})
 	for i := 0; i < n; i++ {
-		switch rapid.IntRange(0, 9).Draw(t, "step") {
+		switch rapid.IntRange(0, 10).Draw(t, "step") {
+		case 10:
+			junk := rapid.SliceOfN(rapid.Byte(), 0, 3).Draw(t, "stray")
+			if rapid.Bool().Draw(t, "stray-prefix") {
+				seed := seedFor(t, c.Kind)
+				junk = seed[:rapid.IntRange(0, min(4, len(seed))).Draw(t, "stray-len")]
+			}
+			c.Steps = append(c.Steps, c19Step{Op: "probe", Wire: junk})
 		case 9:
 			// a chain of nested countersignatures, up to depths some limit may refuse
 			if c.Kind == refcose.KSign1 {
